@@ -78,6 +78,17 @@ class Ref:
                 self.update_factors(hp(self.hyper['factor_decay'], self.steps))
         self.passes += 1
 
+    def fwd_only(self, covs):
+        """a training-mode forward pass without backward: only the input moments are saved"""
+        fus = hp(self.hyper['factor_update_steps'], self.steps)
+        if self.steps % fus == 0:
+            for l in range(self.nl):
+                self.bA[l].append(covs[(l, 'A')])
+            self.mini += 1
+            if self.cfg.hook and self.mini % self.cfg.accum == 0:
+                self.update_factors(hp(self.hyper['factor_decay'], self.steps))
+        self.passes += 1
+
     def step(self, raw):
         fus = hp(self.hyper['factor_update_steps'], self.steps)
         ius = hp(self.hyper['inv_update_steps'], self.steps)
@@ -161,6 +172,9 @@ def reference_grads(cfg, rr, dims):
                     for which in ('A', 'G'):
                         covs[(l, which)] = sum(rr.res[r]['cov'][(l, which, p)] for r in range(W)) / W
                 ref.fwd_bwd(covs)
+                p += 1
+            elif op == 'F':
+                ref.fwd_only({(l, 'A'): sum(rr.res[r]['cov'][(l, 'A', p)] for r in range(W)) / W for l in range(len(dims))})
                 p += 1
             elif op == 's':
                 raw = rr.res[0]['ops'][i]['raw']
